@@ -124,7 +124,32 @@ struct Layout {
     n_comp: u64,
     n_ladder: u64,
     n_edit: u64,
+    n_wit: u64,
 }
+/// Small well-formed (or nearly well-formed) texts around constructs that once crashed a front-end pass:
+/// each is run unedited with compilation, in both tiers.
+const WITNESS: &[&str] = &[
+    "type alias A = A\nfn dsp() {\n  let x: A = 440.0\n  x * 2.0\n}\n",
+    "type alias A = B\ntype alias B = (A, float)\nfn dsp() {\n  let x: A = 440.0\n  x\n}\n",
+    "type alias C = A\ntype alias A = A\nfn dsp() {\n  let x: C = 1.0\n  x\n}\n",
+    "type alias = Freq = float\nfn dsp() {\n  let x: Freq = 440.0\n  x * 2.0\n}\n",
+    "fn dsp(){\n  let a = [1.0, 2.0]\n  a[0] = 3.0\n  a[0]\n}\n",
+    "fn dsp(){\n  let a = [1.0, 2.0]\n  a[0] = a[1] = 3.0\n  a[0]\n}\n",
+    "fn dsp(){ let c = (1.0,2.0)+2.0\n c.0 + c.1 + c.2 }",
+    "fn dsp(){ let c = (1.0,2.0)\n c.2 }",
+    "fn dsp(){ let c = (1.0,2.0)\n c.3 }",
+    "fn foo(a, b=2.0){ a + b }\nfn dsp(){ foo({a = 1.0 + 2.0, ..}) }",
+    "fn foo(a, b=2.0){ a + b }\nfn dsp(){ foo({a = self + 1.0, ..}) }",
+    "fn foo(a, b=2.0){ a + b }\nfn dsp(){ foo({a =+ 1.0, ..}) }",
+    "fn foo(a, b=2.0){ a + b }\nfn dsp(){ foo({a = -1.0, b = foo!(1.0), ..}) }",
+    "x ! x ::",
+    "fn dsp(){ y :: }",
+    "fn dsp(){ a::b!(1.0) }",
+    "fn dsp(){ let r = {a = 1.0, b = 2.0}\n r.a = r.c\n r.a }",
+    "fn dsp(){ let t = (1.0, 2.0)\n t.0 = 3.0\n t.0 }",
+    "fn dsp(){ 1.0 = 2.0\n 0.0 }",
+    "fn dsp(){ let f = |x| x\n f(1.0) = 2.0\n 0.0 }",
+];
 fn layout(tier: Tier) -> Layout {
     let (l_front, l_comp) = match tier {
         Tier::Quick => (3, 2),
@@ -137,6 +162,7 @@ fn layout(tier: Tier) -> Layout {
         n_comp: count_seq(l_comp),
         n_ladder: (LADDER_KINDS * NEST_BOUND) as u64,
         n_edit: *edit_space(tier).cum.last().unwrap(),
+        n_wit: WITNESS.len() as u64,
     }
 }
 
@@ -181,6 +207,15 @@ pub fn make_case(tier: Tier, idx: u64) -> Case {
         };
     }
     let idx = idx - l.n_ladder;
+    if idx < l.n_wit {
+        return Case {
+            text: WITNESS[idx as usize].to_string(),
+            family: "witness",
+            origin: format!("witness {idx}"),
+            compile: true,
+        };
+    }
+    let idx = idx - l.n_wit;
     let es = edit_space(tier);
     let fi = es.cum.partition_point(|&c| c <= idx) - 1;
     let (ci, spans) = &es.files[fi];
@@ -373,7 +408,7 @@ impl Prop for C04 {
     }
     fn n_cases(&self, tier: Tier) -> u64 {
         let l = layout(tier);
-        l.n_front + l.n_comp + l.n_ladder + l.n_edit
+        l.n_front + l.n_comp + l.n_ladder + l.n_wit + l.n_edit
     }
     fn chunk(&self, _t: Tier) -> u64 {
         1000
@@ -428,8 +463,8 @@ impl Prop for C04 {
                 "(a) every sequence of 0..={} token spellings (72 spellings covering every token kind the lexer emits, incl. non-ASCII identifier, both comment kinds, an error character and an unterminated string) joined by one space: tokenize + parse_to_expr + typecheck_with_module_info ({} texts); \
                  (a') the same up to length {} additionally through emit_bytecode and emit_wasm ({} texts); \
                  (b) for each of the {} smallest corpus files every deviation-1 token edit (delete / substitute by each spelling / insert each spelling) at every token and every byte truncation ({} texts; compile entry points on deletions and truncations); \
-                 (c) {} nesting ladders x every depth 1..={} ({} texts), all on a 2 MiB stack. distinct = FNV-64 of text; non-trivial = non-empty.",
-                l.l_front, l.n_front, l.l_comp, l.n_comp, es.files.len(), l.n_edit, LADDER_KINDS, NEST_BOUND, l.n_ladder
+                 (c) {} nesting ladders x every depth 1..={} ({} texts), all on a 2 MiB stack; (d) {} hand-written witness programs around constructs that once crashed a pass (cyclic type aliases, array-element assignment, projection at the arity, open parameter packs, qualified macro callee, odd assignment targets), compiled unedited. distinct = FNV-64 of text; non-trivial = non-empty.",
+                l.l_front, l.n_front, l.l_comp, l.n_comp, es.files.len(), l.n_edit, LADDER_KINDS, NEST_BOUND, l.n_ladder, l.n_wit
             ),
             assumptions: vec![
                 format!("stated nesting bound B = {NEST_BOUND} on a 2 MiB stack in the harness build profile (opt-level 2)"),
